@@ -187,6 +187,11 @@ def check_bin(case, v):
             r = L * Rr
         else:
             r = L / Rr
+        # the same operand objects once more: an operation must give the same result every time
+        r2 = {"+": lambda: L + Rr, "-": lambda: L - Rr, "*": lambda: L * Rr, "/": lambda: L / Rr}[op]()
+        if r2.units() != r.units() or not _cmp(_arr(r2.value()), _arr(r.value())):
+            return v.fail("op-repeat", f"{text} evaluated twice on the same objects: {r.value()!r} {r.units()} then "
+                                       f"{r2.value()!r} {r2.units()}")
     except Exception as e:
         if op in "+-" and dL != dR:
             v.nt(True)
